@@ -67,3 +67,51 @@ def xor_table():
     import os
     ok2 = isinstance(mk, functools.partial) and mk.func is os.urandom and mk.args == (4,) and not mk.keywords
     yield ('make_masking_key-is-urandom(4)', ok2, None if ok2 else dict(found=repr(mk)), 'inspection')
+
+
+@ground('utf8validator.UTF8VALIDATOR_DFA', serves=['C05', 'C02', 'C04'])
+def utf8_table():
+    """the real DFA table is a bisimulation of the RFC 3629 automaton: product construction from
+    (ACCEPT, START) over all 256 bytes; the state map must be a function, injective, map REJECT to
+    REJECT and ACCEPT to START.  This is the property's own quantifier (reachable states x 256)."""
+    from spec import rfc3629
+    mod = importlib.import_module('lomond.utf8validator')
+    yield ('spec-selftest-against-strict-decoder', rfc3629.selftest(), None, 'enumeration')
+    D = mod.UTF8VALIDATOR_DFA
+    S = mod.UTF8VALIDATOR_DFA_S
+    ok_shape = isinstance(D, tuple) and len(D) == 400 and bytes(D) == bytes(S) and mod.UTF8_ACCEPT == 0 and mod.UTF8_REJECT == 1
+    yield ('table-shape-400-and-bytes-copy', ok_shape, None if ok_shape else dict(len=len(D)), 'inspection')
+    yield ('pure-python-validator-in-use', mod.Utf8Validator.__module__ == 'lomond.utf8validator', None, 'inspection')
+
+    def istep(s, b):
+        return D[256 + (s << 4) + D[b]]
+    m = {0: rfc3629.START}
+    inv = {rfc3629.START: 0}
+    work = [0]
+    bad = None
+    trans = 0
+    while work and bad is None:
+        s = work.pop()
+        for b in range(256):
+            trans += 1
+            t = istep(s, b)
+            u = rfc3629.step(m[s], b)
+            if t in m:
+                if m[t] != u:
+                    bad = dict(state=s, byte=b, impl=t, impl_means=repr(m[t]), spec=repr(u))
+                    break
+            else:
+                if u in inv:
+                    bad = dict(state=s, byte=b, impl=t, spec=repr(u), clash_with=inv[u])
+                    break
+                m[t] = u
+                inv[u] = t
+                work.append(t)
+    ok = bad is None and m.get(1) == rfc3629.REJECT and m.get(0) == rfc3629.START
+    yield ('bisimulation(%d reachable states x 256 bytes = %d transitions)' % (len(m), trans), ok, bad, 'enumeration')
+    rng = all(0 <= D[b] <= 11 for b in range(256)) and all(0 <= D[k] <= 8 for k in range(256, 400))
+    yield ('table-ranges(classes 0..11, states 0..8)', rng, None, 'enumeration')
+    absorbing = all(istep(1, b) == 1 for b in range(256))
+    yield ('reject-is-absorbing', absorbing, None, 'enumeration')
+    states_ok = sorted(m) == list(range(9))
+    yield ('reachable-states-are-0..8', states_ok, None if states_ok else dict(states=sorted(m)), 'enumeration')
